@@ -517,6 +517,15 @@ func (c18) Check(out *sim.Outcome, ri *RunInfo) []Violation {
 		}
 		byAddr := map[string][]*sim.DNSCall{}
 		for _, d := range w.DNSCalls() {
+			if d.Err == context.Canceled.Error() && cs.CancelledAt == 0 {
+				// nobody cancelled this call, and a look-up's own limit ends it with "deadline exceeded":
+				// a look-up that was abandoned half-way was abandoned because of something else in the
+				// call (another look-up's failure), which is what "never alters the rest" rules out
+				vs = append(vs, Violation{Rule: "C18.lookup-abandoned", Detail: fmt.Sprintf("the look-up for %s (resolver script %q) was cancelled %v after it started although nobody cancelled the call: a failure elsewhere in the call took it down", d.Addr, d.Script, d.RetAt-d.CallAt), Facts: facts("family", family)})
+				break
+			}
+		}
+		for _, d := range w.DNSCalls() {
 			byAddr[d.Addr] = append(byAddr[d.Addr], d)
 			if d.Err != "" {
 				ri.NonTrivial = true
